@@ -841,6 +841,11 @@ namespace
             runtime.__logmsg(err::ReturningNil(runtime.context_active().current_frame().diag_info_from_position()));
             return {};
         }
+        if (from >= (int)arr->size())
+        { // nothing at or behind the start index: clipping 'to' below would invert the range
+            runtime.__logmsg(err::IndexOutOfRangeWeak(runtime.context_active().current_frame().diag_info_from_position(), arr->size(), from));
+            return {};
+        }
         if (to >= (int)arr->size())
         {
             runtime.__logmsg(err::IndexOutOfRangeWeak(runtime.context_active().current_frame().diag_info_from_position(), arr->size(), to));
